@@ -87,12 +87,15 @@ func IsKnownListed(sig string) bool { return knownSigs()[sig] }
 
 // PropDef describes one property check.
 type PropDef struct {
-	ID    string
-	Rule  string                          // how cases are generated and what makes one non-trivial
-	Gen   func(t *rapid.T, tier string) interface{} // draws a program (pointer to a JSON-able struct)
-	New   func() interface{}              // empty program for decoding
-	Exec  func(prog interface{}, c *Case) *Violation
-	Assum []string
+	ID   string
+	Rule string                                    // how cases are generated and what makes one non-trivial
+	Gen  func(t *rapid.T, tier string) interface{} // draws a program (pointer to a JSON-able struct)
+	New  func() interface{}                        // empty program for decoding
+	Exec func(prog interface{}, c *Case) *Violation
+	// RecordCur selects the programs that are written to the current-case file before execution
+	// (properties for which death of the process is itself a violation).
+	RecordCur func(prog interface{}) bool
+	Assum     []string
 }
 
 var registry = map[string]*PropDef{}
@@ -235,6 +238,17 @@ func (a *statsAgg) flush(path string) {
 	bz, _ := json.Marshal(&a.s)
 	if path != "" {
 		_ = ioutil.WriteFile(path, bz, 0644)
+	}
+}
+
+// flushLight writes the counters without the hash list (used before risky cases so that a shard
+// that dies still reports what it covered; at most every 256 cases).
+func (a *statsAgg) flushLight(path string) {
+	a.mu.Lock()
+	n := a.s.Cases
+	a.mu.Unlock()
+	if n%256 == 0 {
+		a.flush(path)
 	}
 }
 
